@@ -177,6 +177,15 @@ CONC = Stage(
     driver_env="RACELOG",
 )
 
+GATEWAY = Stage(
+    family="gateway",
+    mc={"quick": [("Gateway.tla", "MC_Gateway.cfg", "pass"), ("Gateway.tla", "MC_Gateway_neg.cfg", "fail")],
+        "thorough": [("Gateway.tla", "MC_Gateway_t.cfg", "pass"), ("Gateway.tla", "MC_Gateway_neg.cfg", "fail")]},
+    parts={"quick": [("", 2)], "thorough": [("", 8)]},
+    trace=("Trace_Gateway.tla", "Trace_Gateway.cfg"),
+    nontrivial=lambda e: e.get("ev") != "Start",
+)
+
 CHECKS = {
     "C13": dict(
         stages=[CONC],
@@ -299,7 +308,7 @@ CHECKS = {
                      "credential search and to fabricate the SMGP server authenticator"],
     ),
     "C10": dict(
-        stages=[SESSION],
+        stages=[SESSION, GATEWAY],
         technique="TLA+ session state machine over the command tables of Layouts.tla (Session.tla): TLC exhaustive over all "
                   "interleavings of outstanding requests + TLC validation of recorded real exchanges and dispatcher sweeps",
         level_text="TLC checks that every response in flight matches exactly one outstanding request for all request command "
@@ -407,7 +416,7 @@ CHECKS = {
                      "reflection projector of the harness"],
     ),
     "C06": dict(
-        stages=[SPLIT],
+        stages=[SPLIT, GATEWAY],
         technique="TLA+ relation between a text's unit stream and the produced parts (Split.tla/Text.tla): TLC exhaustive on "
                   "the splitter loops as step machines at scaled capacities + TLC validation of recorded real splits",
         level_text="TLC checks Preserves/TotalOK/SizeOK/WholeOK/MinimalOK/termination for every text of <=9 (thorough 13) "
